@@ -14,8 +14,10 @@ behave like fresh ones (D9).
 two-stage merges (`chain_case`): the outputs of one merge() - incl. the multi-member ones - are merged again and every
 clause is judged on the second call (oracle only: a multi-member object cannot be written in the `merge` command).
 
-database-backed clauses: `children_bp` (exons on one or both strands, level-1 and level-2 children, default criteria and
-criteria without mc.strand; `judge_children_bp`, replayable) and `merge_all` (tables afterwards and the returned list,
+database-backed clauses: `children_bp` (exons on one or both strands, level-1 and level-2 children, children related to the
+parent at level 1 AND level 2 (`Parent=t,g`), default criteria and criteria without mc.strand; `judge_children_bp`,
+replayable) and `merge_all` (`judge_merge_all`, replayable: databases that also hold textually identical lines without an
+ID attribute - distinct features exon_1 / exon_2 - inside multi-member runs; tables afterwards and the returned list,
 compared with the model as a SEQUENCE of ids; command `bp` / `mergeall`).
 """
 import itertools
@@ -401,10 +403,86 @@ def judge_children_bp(ctx, res, case):
     return obs
 
 
+def runs_of(ivs):
+    """maximal runs of overlapping-or-adjacent intervals: list of (start, end, members)"""
+    out = []
+    for a, b, name in sorted(ivs):
+        if out and a <= out[-1][1] + 1:
+            out[-1][1] = max(out[-1][1], b)
+            out[-1][2].append(name)
+        else:
+            out.append([a, b, [name]])
+    return out
+
+
+def judge_merge_all(ctx, res, case):
+    """`merge_all(exclude_components=...)` on a fresh import of the case's lines: one new stored feature per multi-member
+    run of a class (seqid, featuretype, strand), same class and extent as the run; EVERY member (by primary key - two
+    features with textually identical lines and no ID attribute are two members, exon_1 / exon_2) is related to it at
+    level 1 and still stored, or (exclude_components=True) deleted; nothing else is added or removed.  Returns the
+    observations for the correspondence (None when the import or merge_all raised)."""
+    import os
+    import warnings
+    import dbside
+    lines, exclude = case["input"], bool(case["exclude_components"])
+    path = dbside.write_lines(os.path.join(ctx.scratch, "ma.gff3"), lines)
+    db2, rep = dbside.py_create(path, dbside.Cfg())
+    if db2 is None:
+        return None
+    before = {str(x["id"]): x for x in dbside.rows_of(db2)}
+    try:
+        with warnings.catch_warnings():
+            warnings.simplefilter("ignore")
+            # an empty featuretypes_groups means the default single group (interface.py L1741-1743)
+            merged = db2.merge_all(exclude_components=exclude, **({"featuretypes_groups": ()} if exclude else {}))
+    except Exception as ex:
+        common.fail(res, case, "merge_all_raised", "merge_all raised %r" % ex, error=pyside.err_name(ex))
+        return None
+    after = {str(x["id"]): x for x in dbside.rows_of(db2)}
+    rels = set(dbside.rels_of(db2))
+    # expected runs per class (seqid, featuretype, strand)
+    classes = {}
+    for k, x in before.items():
+        classes.setdefault((x["seqid"], x["featuretype"], x["strand"]), []).append((x["start"], x["end"], k))
+    exp_runs = [run for ivs in classes.values() for run in runs_of(ivs) if len(run[2]) > 1]
+    new = {k: x for k, x in after.items() if k not in before}
+    ok = len(new) == len(exp_runs) == len(merged)
+    left_out = []
+    for a, b, members in exp_runs:
+        # the stored feature of this run: same class (seqid, featuretype, strand) as its members, same extent
+        m0 = before[members[0]]
+        cand = [k for k, x in new.items() if (x["start"], x["end"]) == (a, b) and
+                (x["seqid"], x["featuretype"], x["strand"]) == (m0["seqid"], m0["featuretype"], m0["strand"])]
+        if not cand:
+            ok = False
+            continue
+        mid = cand[0]
+        for m_ in members:
+            if exclude:
+                good = m_ not in after
+            else:
+                good = (mid, m_, 1) in rels and m_ in after
+            if not good:
+                left_out.append([mid, m_])
+            ok = ok and good
+    if not exclude:
+        ok = ok and all(k in after for k in before)
+    if not ok:
+        common.fail(res, case, "merge_all_wrong",
+                    "merge_all does not store one new feature per multi-member run and relate its members at level 1 "
+                    "(or delete them with exclude_components)", new=sorted(new),
+                    expected_runs=[(a, b, m_) for a, b, m_ in exp_runs],
+                    members_neither_related_nor_deleted=left_out, remaining=sorted(after))
+    return {"db": db2, "create": rep, "merged": merged, "before": before}
+
+
 def judge(ctx, case):
     res = common.Result("C16")
     if case.get("scenario") == "children_bp":
         judge_children_bp(ctx, res, case)
+        res.evaluations = 1
+    elif case.get("scenario") == "merge_all":
+        judge_merge_all(ctx, res, case)
         res.evaluations = 1
     return res
 
@@ -420,7 +498,11 @@ def run(ctx):
                 "(c) random start-ordered mixed lists, every shipped criterion with thresholds 0-3 and "
                 "reflexive custom criteria, greedy oracle; (d) objects re-used under other criteria; (e) malformed "
                 "stream (None / reversed coordinates, unordered, comma seqids, non-reflexive criterion): "
-                "correspondence only. non-trivial = distinct (criteria, interval list) with at least one merged output "
+                "correspondence only; (f) database-backed: transcripts (with or without a gene above) whose exons overlap / "
+                "abut / lie apart on one or two strands, exons naming the transcript AND the gene as Parent (related at "
+                "level 1 and 2), groups of textually identical lines without ID (distinct features exon_1, exon_2, ...) "
+                "inside multi-member runs - children_bp and merge_all(exclude_components on/off). "
+                "non-trivial = distinct (criteria, interval list) with at least one merged output "
                 "or at least two outputs")
     ses = Session(res)
 
@@ -567,17 +649,6 @@ def run(ctx):
     r2 = ctx.rng("dbmerge")
     dcmds, dexp, dtags = [], [], []
 
-    def runs_of(ivs):
-        """maximal runs of overlapping-or-adjacent intervals: list of (start, end, members)"""
-        out = []
-        for a, b, name in sorted(ivs):
-            if out and a <= out[-1][1] + 1:
-                out[-1][1] = max(out[-1][1], b)
-                out[-1][2].append(name)
-            else:
-                out.append([a, b, [name]])
-        return out
-
     ndb = 25 if not ctx.thorough else 300
     for di in range(ndb):
         # a transcript with overlapping / adjacent / separate exons, plus unrelated features.  Modes: exons on ONE strand
@@ -586,27 +657,52 @@ def run(ctx):
         # the transcript (the exons are then level-2 children of the gene) and CDS children on both strands (>= 2
         # featuretypes x 2 strands on one seqid: the order in which merge_all visits the classes shows in its result)
         strand = r2.choice("+-")
-        two = di <= 1 or r2.random() < 0.45
-        with_gene = di == 0 or r2.random() < 0.6
+        two = di <= 1 or (di > 3 and r2.random() < 0.45)
+        with_gene = di in (0, 2) or r2.random() < 0.6
         exons, cds = [], []
+        # `both`: positions (in `exons`) of the exons that name the transcript AND the gene as Parent (legal GFF3): such an
+        # exon is related to the gene at level 1 (directly) and at level 2 (through the transcript) - one child, two
+        # relation rows.  `dups`: groups of textually identical lines WITHOUT an ID attribute (distinct features with the
+        # auto-numbered keys exon_1, exon_2, ... / CDS_1, ...): (seqid, featuretype, start, end, strand, attrs, copies)
+        both, dups = {}, []
         if di == 0:
             exons = [(1, 10, "+"), (5, 15, "-"), (50, 60, "+"), (55, 58, "-")]
         elif di == 1:
             # a multi-member run in each of the four classes (exon, CDS) x (+, -) of chr1
             exons = [(1, 10, "+"), (5, 15, "+"), (20, 30, "-"), (25, 35, "-")]
             cds = [(40, 45, "+"), (44, 50, "+"), (52, 58, "-"), (55, 60, "-"), (70, 72, "+")]
+        elif di == 2:
+            # doubly related children: Parent=t,g / Parent=g,t / Parent=t under gene g -> mRNA t
+            exons = [(1, 100, strand), (201, 260, strand), (250, 300, strand), (901, 1000, strand)]
+            both = {0: ["t", "g"], 1: ["t", "g"], 2: ["g", "t"]}
+        elif di == 3:
+            # identical ID-less lines: two copies inside a longer run, a run made of two copies only, three copies, and
+            # identical ID-less CDS lines below the transcript
+            exons = [(1, 10, strand), (30, 40, strand)]
+            dups = [("chr2", "exon", 5, 20, "+", [("Name", ["dup"])], 2), ("chr2", "exon", 100, 120, "-", [("Name", ["pair"])], 2),
+                    ("chr2", "exon", 200, 210, "+", [], 3), ("chr1", "CDS", 3, 9, strand, [("Parent", ["t"])], 2)]
         else:
             for e in range(r2.randrange(0, 7)):
                 a = r2.randrange(1, 60)
                 exons.append((a, a + r2.randrange(0, 15), r2.choice("+-") if two else strand))
         starts = set()
         exons = [x for x in exons if not (x[0] in starts or starts.add(x[0]))]      # pairwise different starts
+        if di > 3:
+            if with_gene and r2.random() < 0.5:
+                both = {i: r2.choice([["t", "g"], ["g", "t"]]) for i in range(len(exons)) if r2.random() < 0.6}
+            for g_ in range(r2.choice([0, 0, 1, 1, 2])):
+                a = r2.randrange(1, 60)
+                dups.append((r2.choice(["chr2", "chr2", "chr1"]), r2.choice(["exon", "match"]), a, a + r2.randrange(0, 12),
+                             r2.choice("+-"), r2.choice([[], [("Name", ["d%d" % g_])]]), r2.choice([2, 2, 3])))
+            if r2.random() < 0.25:
+                a = r2.randrange(1, 60)
+                dups.append(("chr1", "CDS", a, a + r2.randrange(0, 12), r2.choice("+-"), [("Parent", ["t"])], 2))
         lines = []
         if with_gene:
             lines.append(gen_db.gff_line("chr1", "gene", 1, 100, strand, [("ID", ["g"])]))
         lines.append(gen_db.gff_line("chr1", "mRNA", 1, 100, strand, [("ID", ["t"])] + ([("Parent", ["g"])] if with_gene else [])))
         for i, (a, b, sd) in enumerate(exons):
-            lines.append(gen_db.gff_line("chr1", "exon", a, b, sd, [("ID", ["e%d" % i]), ("Parent", ["t"])]))
+            lines.append(gen_db.gff_line("chr1", "exon", a, b, sd, [("ID", ["e%d" % i]), ("Parent", both.get(i, ["t"]))]))
         if two and di > 1:
             cstarts = set()
             for i in range(r2.randrange(2, 8)):
@@ -619,6 +715,16 @@ def run(ctx):
         for i in range(r2.randrange(0, 3)):
             a = r2.randrange(1, 60)
             lines.append(gen_db.gff_line("chr2", "exon", a, a + 5, strand, [("ID", ["o%d" % i])]))
+        for seqid_, ft_, a, b, sd, attrs_, copies in dups:
+            if ft_ == "exon" and seqid_ == "chr1":
+                ft_ = "match"           # chr1 exons are the transcript's (children_bp counts them): keep the copies apart
+            for _ in range(copies):
+                # the copies of a group: next to each other, or spread over the file
+                lines.insert(r2.randrange(2 if with_gene else 1, len(lines) + 1) if r2.random() < 0.5 else len(lines),
+                             gen_db.gff_line(seqid_, ft_, a, b, sd, attrs_))
+            if r2.random() < 0.5:
+                # a different feature overlapping the copies: the run has three or more members, two of them identical
+                lines.append(gen_db.gff_line(seqid_, ft_, a + 1, b + 4, sd, [("Name", ["x"])]))
         case = {"scenario": "children_bp", "input": lines, "exons": [list(x) for x in exons],
                 "parents": ["t"] + (["g"] if with_gene else []), "no_shrink": True}
         path = os.path.join(ctx.scratch, "bp.gff3")
@@ -632,6 +738,10 @@ def run(ctx):
         res.count("children_bp_exons_on_two_strands" if len(set(x[2] for x in exons)) > 1 else "children_bp_exons_on_one_strand")
         if with_gene:
             res.count("children_bp_of_level2_children")
+        if both:
+            res.count("children_bp_children_related_at_level_1_and_2")
+        if dups:
+            res.count("merge_all_identical_lines_without_ID")
         dcmds.append(dbside.cmd_create(lines, dbside.Cfg())); dexp.append(rep); dtags.append(("create_db", repr(lines)))
         for parent, mg, got in obs["bp"]:
             dcmds.append("bp %s %s %d" % (enc(parent), enc("exon"), 1 if mg else 0)); dexp.append("ok %d" % got)
@@ -639,47 +749,12 @@ def run(ctx):
         res.count("children_bp")
         # merge_all on a fresh copy of the same database
         for exclude in (False, True):
-            db2, _ = dbside.py_create(path, dbside.Cfg())
-            before = {str(x["id"]): x for x in dbside.rows_of(db2)}
-            try:
-                with warnings.catch_warnings():
-                    warnings.simplefilter("ignore")
-                    # an empty featuretypes_groups means the default single group (interface.py L1741-1743)
-                    merged = db2.merge_all(exclude_components=exclude, **({"featuretypes_groups": ()} if exclude else {}))
-            except Exception as ex:
-                res.oracle_failures.append(("merge_all raised %r" % ex, dict(inp, exclude_components=exclude)))
+            mcase = {"scenario": "merge_all", "input": lines, "exclude_components": exclude, "no_shrink": True}
+            mobs = judge_merge_all(ctx, res, mcase)
+            if mobs is None:
                 continue
             res.evaluations += 1
-            after = {str(x["id"]): x for x in dbside.rows_of(db2)}
-            rels = set(dbside.rels_of(db2))
-            # expected runs per class (seqid, featuretype, strand)
-            classes = {}
-            for k, x in before.items():
-                classes.setdefault((x["seqid"], x["featuretype"], x["strand"]), []).append((x["start"], x["end"], k))
-            exp_runs = [run for ivs in classes.values() for run in runs_of(ivs) if len(run[2]) > 1]
-            new = {k: x for k, x in after.items() if k not in before}
-            ok = len(new) == len(exp_runs) == len(merged)
-            for a, b, members in exp_runs:
-                # the stored feature of this run: same class (seqid, featuretype, strand) as its members, same extent
-                m0 = before[members[0]]
-                cand = [k for k, x in new.items() if (x["start"], x["end"]) == (a, b) and
-                        (x["seqid"], x["featuretype"], x["strand"]) == (m0["seqid"], m0["featuretype"], m0["strand"])]
-                if not cand:
-                    ok = False
-                    continue
-                mid = cand[0]
-                for m_ in members:
-                    if exclude:
-                        ok = ok and m_ not in after
-                    else:
-                        ok = ok and (mid, m_, 1) in rels and m_ in after
-            if not exclude:
-                ok = ok and all(k in after for k in before)
-            if not ok:
-                res.oracle_failures.append(("merge_all does not store one new feature per multi-member run and relate its "
-                                            "members at level 1 (or delete them with exclude_components)",
-                                            dict(inp, exclude_components=exclude, new=sorted(new),
-                                                 expected_runs=[(a, b, m_) for a, b, m_ in exp_runs])))
+            db2, merged, before = mobs["db"], mobs["merged"], mobs["before"]
             dcmds.append(dbside.cmd_create(lines, dbside.Cfg())); dexp.append(rep); dtags.append(("create_db", repr(lines)))
             dcmds.append("mergeall %d" % (1 if exclude else 0))
             # the returned list follows the order in which merge_all visits the classes (seqid, featuretype, strand) and
@@ -778,13 +853,15 @@ def run(ctx):
         "children merge: default criteria with the children on one strand, criteria without mc.strand on one or two "
         "strands; default criteria on two strands are compared with the model only; children have pairwise different "
         "starts (SQL leaves ties unordered)",
+        "merge_all: the members of a run are the stored features (primary keys), so two features with textually identical "
+        "lines are two members; each must be related to the merged feature at level 1, or deleted",
     ]
     return res
 
 
 def replay(ctx, payload):
     inp = payload.get("input", {})
-    if isinstance(inp, dict) and inp.get("scenario") == "children_bp":
+    if isinstance(inp, dict) and inp.get("scenario") in ("children_bp", "merge_all"):
         return common.replay_failure("C16", payload, lambda case: judge(ctx, case))
     res = common.Result("C16")
     ses = Session(res)
